@@ -40,7 +40,9 @@ PReturn ==
   /\ s' = s
 PEnd ==
   /\ Step("PEnd")
-  /\ Req("ALL", Ev.outcome = "ok")
+  \* a panic is within every property here when it is the allocator's (C11: "or fails with a panic"): the interrupted call was
+  \* refused a placement at least once; whatever was installed before it is nevertheless restored, released and flushed
+  /\ Req("ALL", Ev.outcome = "ok" \/ Ev.refused_in_call > 0)
   /\ Req("C02", Ev.restored)
   /\ Req("C12", Ev.held = 0 /\ s.maps = 0)
   /\ Req("C17", s.dirty = {})
